@@ -98,7 +98,7 @@ structure Inst where
   mask : Int := 0
   destNum : Int := 0
   dst : List (List Char) := []
-  hasOp : Bool := false           -- `OpCode != nil`
+  op : Option (List Char) := none -- `OpCode`: nil, or the mnemonic `NewOpcode` keeps (`Opcode.String()`)
   srcNum : Int := 0
   src : List (List Char) := []
   width : Int := 0
@@ -153,23 +153,26 @@ def memPart (legacyAddr : Bool) (inst : Inst) (rest : List (List Char)) : Except
       else pure { inst with suffix2 := ((rest.drop 3).dropLast).map (fun t => toInt32 (atoi t)), imm := atoi last }
     else pure { inst with imm := atoi last }
 
-/-- `extractInst` on the token list -/
-def extractToks (legacyAddr : Bool) (elems : List (List Char)) : Except Fault Inst := do
+/-- `extractInst` on the token list. `keepOp` = the repaired reader, which stores the opcode token
+    (`inst.OpCode = NewOpcode(elems[3+DestNum])`, unknown mnemonics keep their text); `keepOp = false` =
+    the reader before that repair (the line was commented out: `OpCode` stayed nil). -/
+def extractToks (legacyAddr keepOp : Bool) (elems : List (List Char)) : Except Fault Inst := do
   let t0 ← elemAt elems 0
   let t1 ← elemAt elems 1
   let t2 ← elemAt elems 2
   let dn := scanTok 10 32 t2
   let dst ← readRegs elems 3 dn.toNat 0
+  let op ← if keepOp then (elemAt elems (3 + dn)).map some else pure none
   let ts ← elemAt elems (4 + dn)
   let sn := scanTok 10 32 ts
   let src ← readRegs elems (5 + dn) sn.toNat 0
   let lo := 5 + dn + sn
   if lo < 0 || (elems.length : Int) < lo then .error .bounds
   else memPart legacyAddr { pc := scanTok 16 32 t0, mask := scanTok 16 64 t1, destNum := dn, dst := dst,
-                            srcNum := sn, src := src } (elems.drop lo.toNat)
+                            op := op, srcNum := sn, src := src } (elems.drop lo.toNat)
 
-def extractInst (legacyAddr : Bool) (line : List Char) : Except Fault Inst :=
-  extractToks legacyAddr (splitTokens line)
+def extractInst (legacyAddr keepOp : Bool) (line : List Char) : Except Fault Inst :=
+  extractToks legacyAddr keepOp (splitTokens line)
 
 /-! ## thread blocks -/
 structure WarpT where
@@ -223,7 +226,7 @@ def closeWarp (st : PState) : PState :=
   { st with mode := .inTB, tb := { st.tb with warps := st.tb.warps ++ [st.wp] }, wp := {} }
 
 /-- feed one non-empty line -/
-def feed (legacyAddr : Bool) (st : PState) (l : List Char) : PState :=
+def feed (legacyAddr keepOp : Bool) (st : PState) (l : List Char) : PState :=
   if st.fault.isSome then st else
   match st.mode with
   | .seekTB => if hasPrefix "thread block" l then { st with mode := .inTB, tb := { id := scanTBId l } } else st
@@ -240,7 +243,7 @@ def feed (legacyAddr : Bool) (st : PState) (l : List Char) : PState :=
       if n.toNat = 0 then closeWarp st else { st with mode := .readInsts n.toNat }
     else st
   | .readInsts k =>
-    match extractInst legacyAddr l with
+    match extractInst legacyAddr keepOp l with
     | .error f => { st with fault := some f }
     | .ok i =>
       let st := { st with wp := { st.wp with insts := st.wp.insts ++ [i] } }
@@ -258,8 +261,8 @@ def finish (st : PState) : Except Fault (List TBT) :=
     | .readInsts _ => .error .bounds     -- extractInst("") indexes elems[0]
 
 /-- `readThreadblocks` over the lines that follow the header (empty lines are skipped by the scanner) -/
-def parseBody (legacyAddr : Bool) (lines : List (List Char)) : Except Fault (List TBT) :=
-  finish ((lines.filter (fun l => !l.isEmpty)).foldl (feed legacyAddr) {})
+def parseBody (legacyAddr keepOp : Bool) (lines : List (List Char)) : Except Fault (List TBT) :=
+  finish ((lines.filter (fun l => !l.isEmpty)).foldl (feed legacyAddr keepOp) {})
 
 /-! ## spec side: serialisation -/
 def sp : List Char := [' ']
@@ -280,17 +283,22 @@ def renderToks (op : List Char) (i : Inst) : List (List Char) :=
     (if i.compress = 1 then [showInt i.suffix1] else if i.compress = 2 then i.suffix2.map showInt else [])) ++
   [showInt i.imm]
 
-def renderInst (op : List Char) (i : Inst) : List Char := joinSp (renderToks op i)
+/-- the opcode text of an instruction (`Opcode.String()`; empty when `OpCode` is nil) -/
+def opText (i : Inst) : List Char := i.op.getD []
 
-def renderWarp (op : List Char) (w : WarpT) : List (List Char) :=
+/-- one line; `op` chooses the opcode token of each instruction (`opText` = the instruction's own
+    opcode; a constant function = the serialisations used for the reader that dropped the opcode) -/
+def renderInst (op : Inst → List Char) (i : Inst) : List Char := joinSp (renderToks (op i) i)
+
+def renderWarp (op : Inst → List Char) (w : WarpT) : List (List Char) :=
   ["warp = ".toList ++ showInt w.id, "insts = ".toList ++ showNat 10 w.insts.length] ++ w.insts.map (renderInst op) ++ [[]]
 
-def renderTB (op : List Char) (t : TBT) : List (List Char) :=
+def renderTB (op : Inst → List Char) (t : TBT) : List (List Char) :=
   ["#BEGIN_TB".toList, [],
    "thread block = ".toList ++ showInt t.id.1 ++ [','] ++ showInt t.id.2.1 ++ [','] ++ showInt t.id.2.2, []] ++
   (t.warps.map (renderWarp op)).flatten ++ ["#END_TB".toList, []]
 
-def renderBody (op : List Char) (ts : List TBT) : List (List Char) :=
+def renderBody (op : Inst → List Char) (ts : List TBT) : List (List Char) :=
   "#traces format = …".toList :: [] :: (ts.map (renderTB op)).flatten
 
 end C20
